@@ -238,7 +238,9 @@ class Verdict:
         self.coverage = {}
         self.assumptions = []
         self.level = "model_checking"
-        self.known = [k for k in known_findings() if k.get("property") == prop and k.get("status") != "fixed"]
+        self.known = [k for k in known_findings()
+                      if (k.get("property") == prop or prop in k.get("also_affects", []))
+                      and k.get("status") != "fixed"]
 
     def fail(self, witness, known_id=None):
         """Record a disagreement. `known_id` names the deviation the spec used to explain it."""
